@@ -191,4 +191,17 @@ func verif_C15_hello_verify() {
 	}
 	verifObserve("c15hv", arg, vc.out, err == nil)
 	verifOneLineOrNothing(vc.out, err, "C15")
+	if err != nil && len(vc.out) == 0 {
+		// a refused argument must leave no trace: the next call writes its own
+		// greeting and command, one line each, none of them carrying the value
+		verifReach("C15.refused-then-next-call")
+		vc.in = append(vc.in, "250 ok\r\n250 ok\r\n250 ok\r\n"...)
+		nerr := c.Noop()
+		lines := verifSplitLines(vc.out)
+		verifAssert(nerr == nil, "C15.call-after-refused-argument-works")
+		for _, l := range lines {
+			ok := l == "NOOP" || l == "EHLO localhost" || l == "HELO localhost"
+			verifAssert(ok, "C15.refused-argument-leaves-no-trace")
+		}
+	}
 }
